@@ -140,7 +140,9 @@ fn verif_entry() {
     let prop = std::env::var("VERIF_PROP").unwrap_or_default();
     let env = batch::Env::from_env();
     let kind = if cmd == "replay" { replay_kind() } else { std::env::var("VERIF_SCENARIO").unwrap_or_else(|_| "focused".to_string()) };
-    let code = if cmd == "check" {
+    let code = if cmd == "selftest" {
+        world::selftest()
+    } else if cmd == "check" {
         match prop.as_str() {
             "C06" => check_c06(&env),
             "C09" => check(&c09::C09, &env),
